@@ -267,9 +267,18 @@ SubV(v, f) ==
              ELSE (* a bits inside a struct: the container integer read in the field's byte order *)
                   IF st.ok /\ 8 * Len(st.u) = f.bitsize THEN BitSt(UOfBytes(st.u, f.order), f.bitsize)
                   ELSE NullSt
-  IN (* Named modelling decision (documentation silent): a sub-view one of whose arguments cannot be
-        computed has no storage at all -- the generated accessor returns a null view. *)
-     [t |-> f.type, ps |-> ps, st |-> IF AllK(ps) THEN st2 ELSE NullSt]
+      h == Has(v, f)
+      s == Eval(v, f.start, Unknown)
+      z == Eval(v, f.size, Unknown)
+      located == h.k /\ h.v /\ s.k /\ z.k /\ s.v >= 0 /\ z.v >= 0
+  IN (* Named modelling decisions (documentation silent; the generated accessor's choice):
+        - a sub-view one of whose arguments cannot be computed has no storage at all;
+        - the sub-view of a field that is not known to be present at a known location is the default view: it has
+          no storage AND NO PARAMETERS (so `$present(opt.w)', with w conditional on a parameter of opt's type,
+          is unknown while opt is absent, although the argument expression itself could be evaluated). *)
+     [t |-> f.type,
+      ps |-> IF located /\ AllK(ps) THEN ps ELSE [i \in 1..Len(f.args) |-> Unknown],
+      st |-> IF AllK(ps) THEN st2 ELSE NullSt]
 
 FComplete(v, f) ==
   CASE f.kind = "scalar" -> ScalarRaw(Stor(v, f), f.w, ScalarInfo(v, f)).ok
